@@ -93,13 +93,14 @@ class Layout:
     wrap_rhs: bool = False         # parenthesise the right-hand side and break lines at operators
     comment: bool = False
     blank_lines: bool = False
+    call_space: str = ''           # between a function name and its opening parenthesis (Python allows it)
 
     @staticmethod
     def random(rnd: random.Random) -> 'Layout':
         return Layout(op_space=rnd.choice([' ', '', '  ']), eq_space=rnd.choice([' ', '', '   ']),
                       idx_inner=rnd.choice(['', ' ']), brace_inner=rnd.choice(['', ' ', '  ']), plus_sign=rnd.random() < 0.5,
                       zero_index=rnd.random() < 0.3, wrap_rhs=rnd.random() < 0.3, comment=rnd.random() < 0.3,
-                      blank_lines=rnd.random() < 0.3)
+                      blank_lines=rnd.random() < 0.3, call_space=rnd.choice(['', '', ' ', '  ']))
 
 
 PLAIN = Layout()
@@ -161,7 +162,7 @@ def render(e, lay: Layout = PLAIN, *, brk: str = '') -> str:
         inner = sub(e.x, prec(e.x) < 3 or isinstance(e.x, Neg))
         return '-' + inner
     if isinstance(e, Call):
-        return f'{e.f}(' + (',' + (sp or ' ')).join(render(a, lay, brk=brk) for a in e.args) + ')'
+        return f'{e.f}{lay.call_space}(' + (',' + (sp or ' ')).join(render(a, lay, brk=brk) for a in e.args) + ')'
     if isinstance(e, Paren):
         return '(' + render(e.x, lay, brk=brk) + ')'
     if isinstance(e, Cond):
@@ -181,7 +182,7 @@ def render_eq(eq: Eq, lay: Layout = PLAIN) -> str:
         rhs = render(eq.rhs, lay)
     s = f'{lhs}{lay.eq_space}={lay.eq_space}{rhs}'
     if lay.comment:
-        s += '  # ' + 'note 1) comment = {x} <y> [1] (see'
+        s += '  # ' + 'note #1) comment = {x} <y> [1] (see # more'
     return s
 
 
